@@ -40,4 +40,12 @@ DecodeTrackChunk(B) ==
     IF ~IsTag(B, 1, MTrk) \/ U32(B, 5) < 0 \/ 8 + U32(B, 5) # Len(B) THEN [ok |-> FALSE, evs |-> <<>>]
     ELSE LET r == DecodeChunk(B, 9, 0, 0, Len(B), <<>>) IN
          IF r.ok /\ r.next = Len(B) + 1 THEN [ok |-> TRUE, evs |-> Absolute(r.evs, 0, <<>>)] ELSE [ok |-> FALSE, evs |-> <<>>]
+\* ---- file level: a MidiFile over two tracks (MC_X04F, Trace_X04F)
+C4 == [n |-> <<"C">>, o |-> 4, ch |-> 0, vel |-> 100]
+FActs == {[op |-> o, i |-> i] : o \in {"note", "reset"}, i \in 1..2} \cup {[op |-> "reset_file", i |-> 0]}
+FApply(s, a) == CASE a.op = "note" -> [s EXCEPT ![a.i] = StopNote(SetDelta(PlayNote(SetDelta(@, 0), C4), 72), C4)]
+                  [] a.op = "reset" -> [s EXCEPT ![a.i] = Reset(@)]
+                  [] OTHER -> [j \in 1..2 |-> Reset(s[j])]
+\* the rendered file: the tracks that hold any data, in order
+Rendered(s) == SelectSeq([j \in 1..2 |-> s[j].out], LAMBDA o : o # <<>>)
 =============================================================================
